@@ -1446,6 +1446,40 @@ for _n in ("concatenate", "vstack", "hstack"):
     NP["numpy." + _n] = _stack
 
 
+def _swap_leading_axes(t):
+    """the term of a rank-3 broadcast expression with its two leading axes exchanged (None if it is not one)"""
+    if not isinstance(t, Term):
+        return None
+    if t.op == "reshape1" and len(t.args) == 4 and any(isinstance(d_, Term) and d_ == const(1) for d_ in t.args[1:3]):
+        return T("reshape1", t.args[0], t.args[2], t.args[1], t.args[3])
+    if t.op in ("add", "sub", "mul", "div") and len(t.args) == 2:
+        l_, r_ = _swap_leading_axes(t.args[0]), _swap_leading_axes(t.args[1])
+        return None if l_ is None or r_ is None else T(t.op, l_, r_)
+    if t.op in ("neg", "abs", "sqrt", "square") and len(t.args) == 1:
+        x_ = _swap_leading_axes(t.args[0])
+        return None if x_ is None else T(t.op, x_)
+    return None
+
+
+@reg("numpy.stack")
+def np_stack(interp, name, args, kw, st, node):
+    """np.stack of a list of equally shaped matrices built in a loop: the rank-3 array whose leading axis (axis=0)
+    or second axis (axis=1) numbers the members"""
+    b = bind(["arrays", "axis"], args, kw)
+    seq = b["arrays"]
+    ax = axis_of(b.get("axis"), None) if b.get("axis") is not None and b["axis"].kind != "none" else 0
+    sh = A.shape_of(seq)
+    if seq.items is None and sh is not None and len(sh) == 3 and all(d.known() for d in sh) and ax in (0, 1):
+        kw.pop("axis", None)
+        arr3 = A.as_arr(seq)
+        if ax == 0:
+            return arr3
+        sw = _swap_leading_axes(arr3.term)
+        nsh = (sh[1], sh[0], sh[2])
+        return fresh_arr(sw if sw is not None else T("transpose", arr3.term, const(1), const(0), const(2)), nsh, arr3.labels)
+    return fresh_arr(callterm(name, args, kw), None, _L(*args, *kw.values()))
+
+
 @reg("numpy.column_stack")
 def np_column_stack(interp, name, args, kw, st, node):
     # 1-D arrays become columns, then everything is joined along axis 1
